@@ -605,6 +605,13 @@ BD_Shape<T>::concatenate_assign(const BD_Shape& y) {
   // except the constraints as `y(i) >= cost' or `y(i) <= cost', that are
   // placed in the right position on the new matrix.
   add_space_dimensions_and_embed(y_space_dim);
+  // The concatenation with an empty BDS is empty
+  // (the matrix of a BDS marked empty is meaningless).
+  if (y.marked_empty()) {
+    set_empty();
+    PPL_ASSERT(OK());
+    return;
+  }
   const dimension_type new_space_dim = x_space_dim + y_space_dim;
   for (dimension_type i = x_space_dim + 1; i <= new_space_dim; ++i) {
     DB_Row<N>& dbm_i = dbm[i];
